@@ -71,51 +71,76 @@ def dom_order(body, blocks):
     return sorted(blocks, key=lambda b: (len(body.dominators().get(b, ())), b))
 
 
+_SHAPE_CACHE = {}
+
+
 def shape_of(prog, f, side):
-    """Ordered shape events of a serializer / visitor body."""
-    body = f.body
-    ev = []
-    se = LenEval(prog, body)
+    """Ordered shape events of a serializer / visitor body: the serde calls met, in order, on the longest
+    non-failing path through the function (closures handed to iterator adaptors included)."""
+    ck = (id(prog), f.dp, side)
+    if ck in _SHAPE_CACHE:
+        return _SHAPE_CACHE[ck]
     cont = SER_CONT if side == 'ser' else DE_CONT
     elem = SER_ELEM if side == 'ser' else DE_ELEM
-    calls = [(b, t) for b, t in body.calls(lambda c: 'serde' in c['path'] or c['name'] in ('serialize_components_by_row', 'serialize_components_by_column', 'deserialize_components_by_row', 'deserialize_components_by_column') or (c['name'] in ('serialize', 'deserialize') and c.get('trait', '').startswith('resource::')))]
-    for b in dom_order(body, sorted({b for b, _ in calls})):
-        for bb, t in calls:
-            if bb != b:
-                continue
-            n = t['f']['name']
-            g = [a for a in t['f']['args'] if a.get('k') != 'region']
-            loop = b in body.reachable_after(b)
-            if n == 'is_human_readable':
-                ev.append(('hr', b))
-            elif n in cont:
-                consts = [op_const(a) for a in t['args']]
-                name = next((c['s'] for c in consts if c and isinstance(c.get('s'), str) and c['s'].startswith('"')), None)
-                ln = None
-                for a in t['args'][1:]:
-                    c = op_const(a)
-                    if c is not None and 'val' in c:
-                        ln = Lin.k(c['val'])
-                    elif c is not None and 'uneval' in c and 'FIELDS' not in c['uneval']:
-                        ln = se.operand(a, (b, None))
-                    elif op_place(a) is not None and peel_refs(body.place_ty(op_place(a))) and peel_refs(body.place_ty(op_place(a))).get('name') == 'usize':
-                        ln = se.operand(a, (b, None))
-                    elif op_place(a) is not None and is_adt(body.place_ty(op_place(a)), 'core::option::Option'):
-                        l = op_local(a)
-                        d = single_def(body, l) if l is not None else None
-                        if d and d[0] == 'assign' and d[3]['rv']['k'] == 'agg' and d[3]['rv']['ops']:
-                            ln = se.operand(d[3]['rv']['ops'][0], (b, None))
-                visitor = ty_str(g[-1]).split('<')[0] if side == 'de' and g else None
-                inner = norm_ty(g[1], side) if n == 'serialize_newtype_struct' and len(g) > 1 else None
-                ev.append(('cont', n.replace('deserialize_', '').replace('serialize_', ''), name, str(ln) if ln is not None else None, visitor, inner, b))
-            elif n in elem:
-                T = g[1] if len(g) > 1 else None
-                fld = next((op_const(a)['s'] for a in t['args'] if op_const(a) and isinstance(op_const(a).get('s'), str) and op_const(a)['s'].startswith('"')), None)
-                ev.append(('elem', norm_ty(T, side) if T is not None else None, fld, loop, b))
-            elif n in ('serialize_components_by_row', 'serialize_components_by_column', 'deserialize_components_by_row', 'deserialize_components_by_column'):
-                ev.append(('walk', n.replace('deserialize_', '').replace('serialize_', ''), b))
-            elif n in ('serialize', 'deserialize') and t['f'].get('trait', '').startswith('resource::'):
-                ev.append(('walk', 'resources', b))
+    WALKS = ('serialize_components_by_row', 'serialize_components_by_column', 'deserialize_components_by_row', 'deserialize_components_by_column')
+
+    def relevant(e):
+        return e['k'] == 'call' and e.get('fn') is not None and ('serde' in e['path'] or e['name'] in WALKS or (e['name'] in ('serialize', 'deserialize') and (e['f'].get('trait') or '').startswith('resource::')))
+    E = pathsem.analyse(prog, f, max_paths=20000)
+    cands = [p for p in E.paths if p.ended == 'return' and not (isinstance(p.ret, tuple) and p.ret[0] == 'agg' and p.ret[2] == 'Err')]
+    if not cands:
+        cands = [p for p in E.paths if p.ended in ('return', 'cutoff')]
+    best = max(cands, key=lambda p: (len({(e['fn'].dp, e['block']) for e in p.events if relevant(e)}), -len(p.events))) if cands else None
+    ev = []
+    seen = set()
+    for e in (best.events if best else []):
+        if not relevant(e):
+            continue
+        fn = e['fn']
+        b = e['block']
+        if (fn.dp, b) in seen:
+            continue
+        seen.add((fn.dp, b))
+        body = fn.body
+        t = body.term(b)
+        if t.get('k') not in ('call', 'tailcall') or 'path' not in t.get('f', {}):
+            continue
+        n = t['f']['name']
+        g = [a for a in t['f']['args'] if a.get('k') != 'region']
+        loop = (b in body.reachable_after(b)) or fn.kind == 'Closure'
+        key = b if fn is f else (fn.dp, b)
+        if n == 'is_human_readable':
+            ev.append(('hr', key))
+        elif n in cont:
+            se = LenEval(prog, body)
+            consts = [op_const(a) for a in t['args']]
+            name = next((c['s'] for c in consts if c and isinstance(c.get('s'), str) and c['s'].startswith('"')), None)
+            ln = None
+            for a in t['args'][1:]:
+                c = op_const(a)
+                if c is not None and 'val' in c:
+                    ln = Lin.k(c['val'])
+                elif c is not None and 'uneval' in c and 'FIELDS' not in c['uneval']:
+                    ln = se.operand(a, (b, None))
+                elif op_place(a) is not None and peel_refs(body.place_ty(op_place(a))) and peel_refs(body.place_ty(op_place(a))).get('name') == 'usize':
+                    ln = se.operand(a, (b, None))
+                elif op_place(a) is not None and is_adt(body.place_ty(op_place(a)), 'core::option::Option'):
+                    l = op_local(a)
+                    d = single_def(body, l) if l is not None else None
+                    if d and d[0] == 'assign' and d[3]['rv']['k'] == 'agg' and d[3]['rv']['ops']:
+                        ln = se.operand(d[3]['rv']['ops'][0], (b, None))
+            visitor = ty_str(g[-1]).split('<')[0] if side == 'de' and g else None
+            inner = norm_ty(g[1], side) if n == 'serialize_newtype_struct' and len(g) > 1 else None
+            ev.append(('cont', n.replace('deserialize_', '').replace('serialize_', ''), name, str(ln) if ln is not None else None, visitor, inner, b if fn is f else None))
+        elif n in elem:
+            T = g[1] if len(g) > 1 else None
+            fld = next((op_const(a)['s'] for a in t['args'] if op_const(a) and isinstance(op_const(a).get('s'), str) and op_const(a)['s'].startswith('"')), None)
+            ev.append(('elem', norm_ty(T, side) if T is not None else None, fld, loop, key))
+        elif n in WALKS:
+            ev.append(('walk', n.replace('deserialize_', '').replace('serialize_', ''), key))
+        elif n in ('serialize', 'deserialize') and (t['f'].get('trait') or '').startswith('resource::'):
+            ev.append(('walk', 'resources', key))
+    _SHAPE_CACHE[ck] = ev
     return ev
 
 
@@ -197,7 +222,7 @@ def x1_wire_shape(prog):
             continue
         wc, dc = wc[0], dc[0]
         for side, fn_, c in (('writer', w, wc), ('reader', d, dc)):
-            if not fn_.body.must_pass(0, [c[6]], fn_.body.return_blocks()):
+            if c[6] is not None and not fn_.body.must_pass(0, [c[6]], fn_.body.return_blocks()):
                 r.viol('X1', label + '/container-skippable/' + side, fn_.loc(), 'a path through the %s returns without opening its container: the two sides disagree on the wire shape for some values (e.g. a fast path for empty data)' % side)
         r.inst('%s: writer %s(%s,%s) reader %s(%s,%s) visitor=%s' % (label, wc[1], wc[2], wc[3], dc[1], dc[2], dc[3], dc[4]))
         if wc[1] != dc[1] and not (wc[1] == 'seq' and dc[1] == 'seq'):
